@@ -177,7 +177,7 @@ impl C03Deep {
             ("array-closed", "wrong-closer"), ("object-closed", "end-out"), ("array-closed", "fail-out"), ("mixed-closed", "outer-fail"), ("object-closed", "outer-end"),
             ("array-closed", "end-in"), ("object-closed", "fail-in"), ("array-closed", "fail-after-root"), ("object-closed", "ws-fail-after-root"), ("mixed-closed", "ws-garbage-after-root"),
         ];
-        let depths_quick: &[u64] = &[1_000, 10_000, 100_000, 300_000];
+        let depths_quick: &[u64] = &[1_000, 10_000, 100_000, 300_000, 1_000_000];
         let depths_thorough: &[u64] = &[1_000, 10_000, 100_000, 300_000, 1_000_000, 2_000_000];
         let (shape, tail) = if (run as usize) < fixed.len() { let f = fixed[run as usize]; (f.0.to_string(), f.1.to_string()) } else {
             let shape = rng.pick(&SHAPES).to_string();
